@@ -51,6 +51,10 @@ func c07SlashOracle(x *engine.Exec, ref *pendRef) []engine.Failure {
 	if hit > 0 {
 		x.Cnt.Inc("slash.hit_pending_unbonding")
 	}
+	if aborted {
+		// judged below against the full cut (and reported); afterwards the reference follows what is really pending
+		defer ref.resyncUnb(next)
+	}
 	cause := func(c string) string {
 		if aborted {
 			return "callback-aborted"
@@ -267,6 +271,12 @@ func c07Step(x *engine.Exec) []engine.Failure {
 	case world.KGovDelete:
 		if len(x.Prev.Snap().Unb) > 0 {
 			x.Cnt.Inc("asset.deleted_with_pending_unbondings")
+			for _, u := range x.Prev.Snap().Unb {
+				if u.Denom == x.Op.Denom && u.Amt.GTE(mi("1000000000")) {
+					x.Cnt.Inc("asset.deleted_after_full_exits_at_unrepresentable_price")
+					break
+				}
+			}
 		}
 	case world.KReimport:
 		if x.Res.Err != nil {
@@ -413,10 +423,46 @@ func init() {
 				sc.Required = []string{"slash.hit_pending_unbonding", "slash.hit_pending_redelegation", "slash.after_restart"}
 				return sc
 			}
-			if tier == "thorough" {
-				return []*engine.Scenario{mk("c07-packing", []int{4, 2, 0, 2, 1}, 8), restart([]int{2, 2, 2, 3, 0}, 7)}
+			// an asset whose share price is not representable (5/6 after a 50% slash of one of its two validators) is emptied and
+			// deleted by governance; whatever its full exits leave behind on the validators must not get in the way of slashing the
+			// pending entries of the OTHER asset (three seeds: every choice of the validator that never held the emptied asset)
+			dust := func(budgets []int, depth int) *engine.Scenario {
+				sc := mk("c07-deleted-asset-dust", budgets, depth)
+				sc.Seeds = nil
+				for _, h := range [][2]int{{0, 1}, {1, 2}, {0, 2}} {
+					sc.Seeds = append(sc.Seeds, []world.Op{
+						opDel(0, 0, "aaa", "1000"), opDel(0, 1, "aaa", "1000"), opDel(0, 2, "aaa", "1000"),
+						opDel(0, h[0], "bbb", "4000000000"), opDel(1, h[1], "bbb", "2000000000"), opSlash(h[1], "0.5"),
+					}, []world.Op{
+						opDel(0, 0, "aaa", "1000"), opDel(0, 1, "aaa", "1000"), opDel(0, 2, "aaa", "1000"),
+						opDel(0, h[1], "bbb", "4000000000"), opDel(1, h[0], "bbb", "2000000000"), opSlash(h[0], "0.5"),
+					})
+				}
+				sc.Ops = func(n *engine.Node) []world.Op {
+					var ops []world.Op
+					s := n.Snap()
+					for _, p := range s.Pos {
+						if p.Denom == "bbb" {
+							ops = append(ops, world.Op{K: world.KUndelegateAll, D: p.D, V: p.V, Denom: "bbb", Class: ClsUser})
+						}
+					}
+					if a, ok := s.Assets["bbb"]; ok && a.TotalTokens.IsZero() {
+						ops = append(ops, world.Op{K: world.KGovDelete, Denom: "bbb", Class: ClsGov, Args: map[string]string{"signer": "authority"}})
+					} else if !ok {
+						for _, v := range []int{0, 1, 2} {
+							ops = append(ops, world.Op{K: world.KUndelegate, D: 0, V: v, Denom: "aaa", Amt: "300", Class: ClsUser})
+							ops = append(ops, world.Op{K: world.KSlash, V: v, F: "0.5", Class: ClsSlash})
+						}
+					}
+					return ops
+				}
+				sc.Required = []string{"slash.hit_pending_unbonding", "asset.deleted_after_full_exits_at_unrepresentable_price"}
+				return sc
 			}
-			return []*engine.Scenario{mk("c07-packing", []int{3, 1, 0, 2, 1}, 5), restart([]int{2, 1, 1, 3, 0}, 7)}
+			if tier == "thorough" {
+				return []*engine.Scenario{mk("c07-packing", []int{4, 2, 0, 2, 1}, 8), restart([]int{2, 2, 2, 3, 0}, 7), dust([]int{4, 1, 0, 0, 1}, 6)}
+			}
+			return []*engine.Scenario{dust([]int{4, 1, 0, 0, 1}, 6), restart([]int{2, 1, 1, 3, 0}, 7), mk("c07-packing", []int{3, 1, 0, 2, 1}, 5)}
 		},
 		Assumptions: []string{
 			"seed: D0 staked on V0,V1,V2 (aaa) and V0,V1 (bbb), D1 on V0,V2 (aaa); take rate 0 so that share prices move only through slashes",
